@@ -184,6 +184,9 @@ CORNER_CASES = [dict(_BASE, beam_pix=(3.0, 3.0, 0.0), fwhm=(3.0, 3.0), fx=40.5, 
                 dict(_BASE, beam_pix=(5.0, 4.0, 30.0), fwhm=(8.0, 5.0), phi=115.0, fx=37.37, fy=43.21, rms_frac=0.05),
                 dict(_BASE, nx=120, ny=100, beam_pix=(5.0, 4.0, -30.0), fwhm=(17.5, 5.0), phi=0.0, fx=57.37, fy=53.21, rms_frac=0.03),
                 dict(_BASE, nx=120, ny=100, beam_pix=(5.0, 4.0, -30.0), fwhm=(17.5, 5.0), phi=90.0, fx=57.37, fy=53.21, rms_frac=0.03),
+                # celestial pole within the field (beam under an arcminute, oblique beam PA)
+                dict(_BASE, crval=(120.0, 89.8), scale=5 / 3600, beam_pix=(6.0, 4.5, 35.0), fwhm=(8.0, 6.0), phi=70.0, fx=41.3, fy=38.6),
+                dict(_BASE, crval=(300.0, -89.7), scale=8 / 3600, beam_pix=(5.0, 4.0, -50.0), fwhm=(6.5, 5.0), phi=20.0, fx=39.2, fy=42.4),
                 # a non-zero (forced) background, faint and bright source
                 dict(_BASE, beam_pix=(5.0, 4.0, 30.0), fwhm=(6.0, 5.0), phi=30.0, fx=40.2, fy=39.9, bkg_offset=0.7, rms_frac=0.05),
                 dict(_BASE, beam_pix=(5.0, 4.0, 30.0), fwhm=(6.0, 5.0), phi=30.0, fx=40.2, fy=39.9, bkg_offset=-3.0)]
@@ -221,6 +224,32 @@ def crosscheck(p):
                 seen.add(lab)
                 failures.append({"label": lab, "input": {"seed": 5, "overrides": over}, "what": what, "replay_func": "replay_recovery",
                                  "replay_payload": {"cases": [[5, over]]}})
+    # two images of the same field and beam with different cell sizes, one after the other in this process
+    for over in (dict(_BASE, scale=10 / 3600, beam_pix=(5.0, 4.0, 20.0), fwhm=(6.0, 5.0), phi=40.0, fx=40.2, fy=39.7),
+                 dict(_BASE, scale=5 / 3600, beam_pix=(10.0, 8.0, 20.0), fwhm=(12.0, 10.0), phi=40.0, fx=40.2, fy=39.7)):
+        evals += 1
+        try:
+            fl = run_case(make_case(5, over))[0]
+        except Exception as e:
+            fl = [("finder_completes", repr(e))]
+        for lab, what in fl:
+            if lab not in seen:
+                seen.add(lab)
+                failures.append({"label": lab, "input": {"seed": 5, "overrides": over, "after": "the same field at another cell size"},
+                                 "what": what, "replay_func": "replay_recovery", "replay_payload": {"sequence": True}})
+    # white noise well above 1 in image units, no covariance weighting: the reported errors must still be in image units
+    for j in range(6 if thorough else 2):
+        evals += 1
+        over = {'noise': 20.0, 'amp': 1000.0, 'noise_seed': s0 + j, 'docov': False, 'white': True}
+        try:
+            fl = run_case(make_case(s0 + 900 + j, over))[0]
+        except Exception as e:
+            fl = [("finder_completes", repr(e))]
+        for lab, what in fl:
+            if lab not in seen:
+                seen.add(lab)
+                failures.append({"label": lab, "input": {"seed": s0 + 900 + j, "overrides": over}, "what": what,
+                                 "replay_func": "replay_recovery", "replay_payload": {"cases": [[s0 + 900 + j, over]]}})
     return {"evaluations": evals, "failures": failures,
             "rule": "one isolated pixel-space Gaussian (FWHM >= beam major in both axes, beam 3-7 pixels, random sub-pixel position incl. "
                     "exact half pixels, orientation, axis ratio, amplitude, pixel scale 1-60 arcsec, CRVAL incl. RA wrap and |dec| 70-85, "
@@ -231,6 +260,14 @@ def crosscheck(p):
 def replay_recovery(p):
     bad = []
     ob = p.get("obligation", "")
+    if p.get("sequence"):
+        for over in (dict(_BASE, scale=10 / 3600, beam_pix=(5.0, 4.0, 20.0), fwhm=(6.0, 5.0), phi=40.0, fx=40.2, fy=39.7),
+                     dict(_BASE, scale=5 / 3600, beam_pix=(10.0, 8.0, 20.0), fwhm=(12.0, 10.0), phi=40.0, fx=40.2, fy=39.7)):
+            fl = run_case(make_case(5, over))[0]
+            if fl:
+                return {"fails": True, "observed": [{"sequence": True, "what": fl}], "replay_func": "replay_recovery",
+                        "replay_payload": {"sequence": True}}
+        return {"fails": False, "observed": [], "replay_func": "replay_recovery", "replay_payload": {"sequence": True}}
     cases = p.get("cases") or ([[5, CORNER_CASES[0]]] if 'upper_amplitude_bound' in ob else [[i, {}] for i in range(40)])
     for seed, over in cases:
         fl = run_case(make_case(seed, over))[0]
